@@ -165,16 +165,30 @@ def run_script(sc, max_loops=60000):
     peers = {}
     for devid in sc["peers"]:
         st = net.add_stack(devid, max_apdu=128)
-        st.server_mode = "silent" if devid in sc.get("silent", []) else "ack"
+        st.server_mode = "silent" if devid in sc.get("silent", []) else "echo"
         st.response_payload = pattern(12, devid)
         peers[devid] = st
     t0 = net.vt.now
     bg = []
     sent = []
+    serial = [0]
+
+    def submit(devid):
+        serial[0] += 1
+        sent.append((devid, net.vt.now - t0))
+        a.send_cpt(peers[devid], pattern(8, devid) + bytes([serial[0] & 255, serial[0] >> 8]))
+    chain = list(sc.get("chain", []))      # requests issued from inside IOCB completion callbacks, in order
+    if chain and sc.get("iocb"):
+        orig_done = a._iocb_done
+
+        def done(idx, iocb):
+            orig_done(idx, iocb)
+            if chain:
+                submit(chain.pop(0))
+        a._iocb_done = done
     for op in sc["script"]:
         if op[0] == "req":
-            sent.append((op[1], net.vt.now - t0))
-            a.send_cpt(peers[op[1]], pattern(8, op[1]))
+            submit(op[1])
         elif op[0] == "bg":
             t = FunctionTask(lambda: None)
             t.install_task(when=net.vt.now + op[1])
@@ -194,6 +208,7 @@ def run_script(sc, max_loops=60000):
             "raised": a.raised, "errors": net.vt.errors[:5],
             "residue": {"a": a.residue(), "heap": len(net.vt.pending())},
             "iocb": [{k: v for k, v in e.items() if k != "iocb"} for e in a.iocb_events],
+            "acks": [(c[3], c[4]) for c in a.confirmations if c[1] == "ack"],
             "bound": (a.device.numberOfApduRetries + 1) * a.device.apduTimeout / 1000.0 + 0.5}
 
 
@@ -226,6 +241,13 @@ def check_script(sc, res):
         out.append(("residue-transaction", "transactions left: %r" % (r,)))
     if r["heap"]:
         out.append(("residue-timer", "%d timer(s) still scheduled" % r["heap"]))
+    # every IOCB gets the answer to ITS OWN request (the echo server answers with the request reversed)
+    for i, e in enumerate(res["iocb"]):
+        if e.get("callbacks", 0) != 1:
+            out.append(("iocb-callbacks", "IOCB #%d called back %d times" % (i, e.get("callbacks", 0))))
+        elif e.get("ok") and e.get("request") is not None and e.get("response") != bytes(reversed(e["request"])):
+            out.append(("reply-crossed", "IOCB #%d (request %s) was completed with the answer to another request (%s)" % (
+                i, e["request"].hex(), None if e.get("response") is None else e["response"].hex())))
     return out
 
 
